@@ -61,6 +61,7 @@ RULES = [
     ("R9", None, None, "`for &X in &E {` -> `let mut X__k = 0; while X__k < E.len() { let X = E[X__k]; X__k += 1;` (index loop, increment first so `continue` keeps its meaning)"),
     ("R15", None, None, "`for X in &E {` -> same index loop with `let X = &E[X__k];`"),
     ("R16", None, None, "`for X in V {` (V a Vec of Copy elements, by value) -> same index loop with `let X = V[X__k];`"),
+    ("R18", None, None, "`for X in A..B {` whose body uses `continue` -> `let mut X__k = A; while X__k < B { let X = X__k; X__k += 1;`"),
     ("R4", re.compile(r'\bf64::INFINITY\b'), 'f64_infinity()', "`f64::INFINITY` -> `f64_infinity()`"),
     ("R5", re.compile(r'\bfor \(([A-Za-z_]\w*), ([A-Za-z_]\w*)\) in ([A-Za-z_]\w*)\.iter\(\)\.enumerate\(\)\.skip\((\d+)\) \{'),
      r'for \1 in \4..\3.len() { let \2 = &\3[\1];', "`for (i, x) in v.iter().enumerate().skip(k) {` -> `for i in k..v.len() { let x = &v[i];`"),
@@ -123,6 +124,19 @@ def apply_r9(text):
         rep = "let mut %s__k: usize = 0; while %s__k < %s.len() { %s %s__k += 1;" % (x, x, e, bind, x)
         edits.append((mm.start(), mm.end(), rep))
         counts[rid] += 1
+    # R18: a range `for` loop whose body uses `continue` (unsupported by Verus) becomes a `while` loop that binds the
+    # loop variable first and increments the counter before the body, so `continue` keeps its meaning
+    counts["R18"] = 0
+    for mm in s.find_code(r'\bfor ([A-Za-z_]\w*) in ([^{]+?)\.\.(=?)([^{]+?) \{'):
+        o = mm.end() - 1
+        c = s.match_brace(o)
+        if not any(True for _ in Src(text[o:c]).find_code(r'\bcontinue\b')):
+            continue
+        x, lo_e, incl, hi_e = mm.group(1), mm.group(2).strip(), mm.group(3), mm.group(4).strip()
+        cmp_op = "<=" if incl else "<"
+        rep = "let mut %s__k: usize = %s; while %s__k %s %s { let %s = %s__k; %s__k += 1;" % (x, lo_e, x, cmp_op, hi_e, x, x, x)
+        edits.append((mm.start(), mm.end(), rep))
+        counts["R18"] += 1
     for a2, b2, rep in sorted(edits, reverse=True):
         text = text[:a2] + rep + text[b2:]
     return text, counts
